@@ -1,12 +1,7 @@
 (** * C19 correspondence: the CLI's request (--print-request), its output pass, and the
     library CSV readers, on generated CSV files. *)
 From ET Require Import Corr.Common Model.Csv.
-
-Definition nm (l : list nat) : name := map N.of_nat l.      (* bytes, written as small nat numerals *)
-Notation ffield := (@field F64).
-Definition fld (raw : name) (atoi pint : option Z) (fl : option float) : ffield := @F F64 raw atoi pint fl.
-Notation frecord := (list ffield).
-Definition csvf (rs : list frecord) (clean : bool) : @csvin F64 := @CSV F64 rs clean.
+From ET Require Export Corr.CsvCase.
 
 (** what --print-request printed: local trust entries and size, the optional vectors, peerIds *)
 Record oreq := OR { or_lt : list ccoo; or_size : N; or_pt : option (list ent * N); or_it : option (list ent * N); or_ids : list name }.
